@@ -9,7 +9,7 @@ from ..model import Model
 from ..seeds import digest
 from ..shrinkspec import spec_candidates
 from ..spec import gen_mtl
-from ..world import EPS, World, compare, expect_mtl, gen_sched, identity_sched, run_call
+from ..world import spec_eps, EPS, World, compare, expect_mtl, gen_sched, identity_sched, run_call
 
 ID = "C02"
 LEVEL = "exploration"
@@ -203,7 +203,7 @@ def execute(scn):
     spec, call, roles = scn["spec"], scn["call"], scn["roles"]
     model = Model(spec)
     cutmodel = Model(spec, cut=call["features"])
-    eps = EPS[spec["dtype"]]
+    eps = spec_eps(spec)
     stats, events, viols, sets = {}, [], [], {}
     from ..world import require_valid
 
